@@ -36,6 +36,11 @@ class ThreadRunner(BaseRunner):
     def _monitor_payload(self, payload):
         try:
             result = payload()
+        except StopIteration as e:
+            # StopIteration cannot be set on a Future - the failure would be lost.
+            # Report it the way Python does for coroutines (PEP 479).
+            failure = RuntimeError("payload raised StopIteration")
+            failure.__cause__ = e
         except BaseException as e:  # noqa: B036
             failure = e
         else:
